@@ -333,3 +333,35 @@ Proof.
   rewrite HR, HE. rewrite normal_elems_of_fields by exact Nfs. rewrite Efs.
   rewrite <- normal_elems_kept. fold K. rewrite Hm. reflexivity.
 Qed.
+
+(* ---- the theorem for the whole of `plain` ----------------------------------------------------------- *)
+Lemma zix_normal_plain : forall s, c_string s -> Z.of_nat (length s) + 2 < W64 -> plain s = true ->
+  zix_normal_opt s = Some (std_normal s).
+Proof.
+  intros s Hc HW Hp. destruct (no_dotdot_tail s) eqn:NT; [apply zix_normal_on_class; assumption|].
+  destruct (plain_parts s Hp) as (HA & HB & HC & HD).
+  unfold no_dotdot_tail in NT. rewrite HA in NT. cbn [negb andb] in NT.
+  destruct (forallb_false_ex _ _ _ NT) as (f0 & Hf0 & Ef0). apply negb_false_iff in Ef0.
+  assert (Hdd : In DD (fields s)).
+  { assert (Hk0 : keepf f0 = true).
+    { unfold keepf, is_dot. destruct f0 as [|a [|b f']]; [discriminate|discriminate|]. cbn [is_empty bytes_eqb orb]. rewrite andb_false_r. reflexivity. }
+    destruct (field_class s f0 Hp Hc Hf0 Hk0) as [_ [-> | A]]; [exact Hf0|congruence]. }
+  pose proof (dd_not_tail s Hdd HD) as Hlast.
+  destruct s as [|c s']; [destruct Hdd as [A | []]; discriminate|].
+  destruct (c =? SEP) eqn:Ec.
+  - apply Z.eqb_eq in Ec. subst c.
+    assert (EF : fields (SEP :: s') = [] :: fields s') by (cbn [fields]; rewrite Z.eqb_refl; reflexivity).
+    assert (Hrel : has_root s' = false) by (destruct s' as [|d s'']; [reflexivity|]; cbn in HA; cbn; exact HA).
+    assert (HEl : elems (SEP :: s') = elems_of (fields s')).
+    { rewrite elems_unfold, EF. apply elems_of_cons_empty. apply fields_nonnil. }
+    assert (Hfld : forall f, In f (fields s') -> keepf f = true -> goodf f).
+    { intros f Hf Hk. apply (field_class (SEP :: s') f Hp Hc); [rewrite EF; right; exact Hf|exact Hk]. }
+    assert (Hlast' : last (fields s') [] <> [DOT]).
+    { rewrite EF in Hlast. pose proof (fields_nonnil s') as N. destruct (fields s') as [|g G]; [congruence|]. exact Hlast. }
+    exact (zix_normal_k_plain (SEP :: s') 1 s' (or_intror eq_refl) ltac:(discriminate) eq_refl Hrel Hc HW eq_refl HEl Hfld Hlast').
+  - assert (Hrel : has_root (c :: s') = false) by (cbn; exact Ec).
+    assert (Hfld : forall f, In f (fields (c :: s')) -> keepf f = true -> goodf f).
+    { intros f Hf Hk. apply (field_class (c :: s') f Hp Hc Hf Hk). }
+    exact (zix_normal_k_plain (c :: s') 0 (c :: s') (or_introl eq_refl) ltac:(discriminate) eq_refl Hrel Hc HW Hrel
+             (elems_unfold _) Hfld Hlast).
+Qed.
